@@ -22,3 +22,97 @@ Theorem c03_only_spaces_invented : forall W pad ovf (calls : list (text * wsmode
   forall c, In c (flat_map tl_string ls) -> ws c = true -> cp c = 32.
 Proof. exact Conserve.c03_only_spaces_invented. Qed.
 Print Assumptions c03_only_spaces_invented.
+
+(* ---------- tree level (Proofs/RenderConserve.v): document characters are neither lost, duplicated nor reordered ----------
+   docp c = not whitespace, has a width entry, provenance label >= 16 (a document character).
+   (A) table-free trees: exact order; (B) raw mode: exact order with tables; (C) any tree: multiset,
+   minus the cells the layout skips (recorded finding). *)
+From H2T Require Import Sub Css Dom Render Api Proofs.WrapInv Proofs.RenderWidth Proofs.Conserve Proofs.Footnotes Proofs.RenderConserve.
+Theorem c03_render_node_no_table :
+  forall (d : deco) (mw : N) (n : rnode) (st st' : rstate) (s : subr) (rest : list subr),
+       prefix_made d ->
+       no_table n = true ->
+       stack st = s :: rest ->
+       Iv s ->
+       render_node d mw n st = Ok st' ->
+       exists s' : subr,
+         stack st' = s' :: rest /\
+         swidth_ s' = swidth_ s /\
+         sopts s' = sopts s /\ Iv s' /\ out_stream s' = out_stream s ++ doc_stream d n.
+Proof. exact RenderConserve.c03_render_node_no_table. Qed.
+Print Assumptions c03_render_node_no_table.
+
+Theorem c03_render_tree_no_table :
+  forall (d : deco) (mw : N) (o : ropts) (width : N) (tree : rnode) (s : subr),
+       prefix_made d ->
+       no_table tree = true ->
+       render_tree d mw o width tree = Ok s ->
+       out_stream s = doc_stream d tree /\
+       (forall ls : list rline,
+        sub_into_lines s = Ok ls -> filter docp (flat_map rline_string ls) = doc_stream d tree).
+Proof. exact RenderConserve.c03_render_tree_no_table. Qed.
+Print Assumptions c03_render_tree_no_table.
+
+Theorem c03_render_tree_raw :
+  forall (d : deco) (mw : N) (o : ropts) (width : N) (tree : rnode) (s : subr),
+       prefix_made d ->
+       o_raw o = true ->
+       render_tree d mw o width tree = Ok s ->
+       out_stream s = tree_stream d mw o tree width /\
+       (forall ls : list rline,
+        sub_into_lines s = Ok ls -> filter docp (flat_map rline_string ls) = tree_stream d mw o tree width).
+Proof. exact RenderConserve.c03_render_tree_raw. Qed.
+Print Assumptions c03_render_tree_raw.
+
+Theorem c03_render_tree_perm :
+  forall (d : deco) (mw : N) (o : ropts) (width : N) (tree : rnode) (s : subr),
+       prefix_made d ->
+       Forall posw (tree_stream d mw o tree width) ->
+       render_tree d mw o width tree = Ok s ->
+       Permutation.Permutation (out_stream s) (tree_stream d mw o tree width) /\
+       (forall ls : list rline,
+        sub_into_lines s = Ok ls ->
+        Permutation.Permutation (filter docp (flat_map rline_string ls)) (tree_stream d mw o tree width)).
+Proof. exact RenderConserve.c03_render_tree_perm. Qed.
+Print Assumptions c03_render_tree_perm.
+
+Theorem c03_lines_from_read :
+  forall (ist : list (text * text) -> res (list styledecl)) (dr : list node -> res (list ruleset))
+         (c : config) (doc : list node) (width : N) (tree : rnode) (tls : list tline),
+       deco_made (c_deco c) ->
+       to_render_tree ist dr c doc = Ok tree ->
+       no_table tree = true ->
+       lines_from_read ist dr c doc width = Ok tls -> filter docp (flat_map tl_string tls) = leaf_stream tree.
+Proof. exact RenderConserve.c03_lines_from_read. Qed.
+Print Assumptions c03_lines_from_read.
+
+Theorem c03_string_from_read :
+  forall (ist : list (text * text) -> res (list styledecl)) (dr : list node -> res (list ruleset))
+         (c : config) (doc : list node) (width : N) (tree : rnode) (t : text),
+       deco_made (c_deco c) ->
+       to_render_tree ist dr c doc = Ok tree ->
+       no_table tree = true -> string_from_read ist dr c doc width = Ok t -> filter docp t = leaf_stream tree.
+Proof. exact RenderConserve.c03_string_from_read. Qed.
+Print Assumptions c03_string_from_read.
+
+Theorem tree_stream_subseq :
+  forall (d : deco) (mw : N) (o : ropts) (n : rnode) (w : N),
+       subseq (tree_stream d mw o n w) (doc_stream d n).
+Proof. exact RenderConserve.tree_stream_subseq. Qed.
+Print Assumptions tree_stream_subseq.
+
+Theorem deco_made_plain :
+  deco_made plain_deco.
+Proof. exact RenderConserve.deco_made_plain. Qed.
+Print Assumptions deco_made_plain.
+
+Theorem deco_made_rich :
+  deco_made rich_deco.
+Proof. exact RenderConserve.deco_made_rich. Qed.
+Print Assumptions deco_made_rich.
+
+Theorem deco_made_trivial :
+  deco_made trivial_deco.
+Proof. exact RenderConserve.deco_made_trivial. Qed.
+Print Assumptions deco_made_trivial.
+
